@@ -28,8 +28,8 @@ Lemma set_nth_spec {A} i (v : A) l l' : set_nth i v l = Some l' ->
   length l' = length l /\
   forall j, nth_error l' j = if Nat.eqb j i then Some v else nth_error l j.
 Proof.
-  revert i l'; induction l as [|x l IH]; intros i l' H; simpl in H. { discriminate. }
-  destruct i.
+  revert i l'; induction l as [|x l IH]; intros i l' H. { destruct i; discriminate. }
+  destruct i; simpl in H.
   - inversion H; subst. split; [reflexivity|]. intros [|j]; reflexivity.
   - destruct (set_nth i v l) as [r|] eqn:E; [|discriminate]. inversion H; subst.
     destruct (IH _ _ E) as [L Hn]. split; [simpl; lia|]. intros [|j]; simpl; [reflexivity|]. apply Hn.
@@ -83,7 +83,7 @@ Lemma skipn_app_exact {A} (p l : list A) : skipn (length p) (p ++ l) = l.
 Proof. induction p; simpl; auto. Qed.
 
 Lemma nth_error_app_exact {A} (p l : list A) : nth_error (p ++ l) (length p) = hd_error l.
-Proof. induction p; simpl; auto. destruct l; reflexivity. Qed.
+Proof. induction p; simpl; auto. Qed.
 
 Lemma firstn_app_succ {A} (p : list A) x l : firstn (length p + 1) (p ++ x :: l) = p ++ [x].
 Proof. induction p; simpl; [reflexivity|]. f_equal. assumption. Qed.
